@@ -81,7 +81,7 @@ def main(claimed):
             "kind_free_text": "single-process deterministic simulator: one integer (VERIF_SEED) decides every plan; plans are generated as data, executed against the real palette code and a reference model/oracle with injected faults (unwind, leak, cancel, contract panic, degenerate entropy, peer errors, I/O faults); parallel batch runner whose outcome is independent of the worker count, determinism self-test, delta-debugging minimiser, replay files confirmed in a fresh process",
         }],
         "checks": checks,
-        "notes": "Deterministic simulation with fault injection. Four of the twenty properties have something other than the call's arguments deciding the outcome (operation histories with unwind/leak faults: C13, C18; the entropy seam: C19; the serde peer and its I/O: C20); the other sixteen are pure functions and are listed as not applicable, see DESIGN.md §1 and §5. One genuine defect (C19, uniform hue samplers) was found and repaired in /repo commit e200334; see known_findings.json. 60+ independently written property-breaking changes, 23 own edits and 24 property-preserving changes (all silent) are kept under seeded/, sensitivity/ and benign/ with the check that catches each (DESIGN.md §8.5).",
+        "notes": "Deterministic simulation with fault injection. Four of the twenty properties have something other than the call's arguments deciding the outcome (operation histories with unwind/leak faults: C13, C18; the entropy seam: C19; the serde peer and its I/O: C20); the other sixteen are pure functions and are listed as not applicable, see DESIGN.md §1 and §5. One genuine defect (C19, uniform hue samplers) was found and repaired in /repo commit e200334; see known_findings.json. 60+ independently written property-breaking changes, 23 own edits and 48 property-preserving changes (all silent) are kept under seeded/, sensitivity/ and benign/ with the check that catches each (DESIGN.md §8.5).",
         "not_applicable": sorted(na, key=lambda e: e["property_id"]),
     }
     path = os.path.join(here, "MANIFEST.json")
